@@ -679,7 +679,7 @@ fn outcome_plans() -> Vec<(&'static str, Vec<Plan>, Vec<Fault>)> {
 pub fn lane_skip_interplay(seed: u64) -> Vec<Scenario> {
     let mut out = vec![];
     let mut g = G::new(seed ^ 0x15c1);
-    for which in ["prepend-skips", "append-skips", "detached-80", "skip-after-failure", "skip-with-wait", "fail-then-die", "compat-md"] {
+    for which in ["prepend-skips", "append-skips", "detached-80", "skip-after-failure", "skip-with-wait", "fail-then-die", "compat-md", "cram-skip-then-exit"] {
         for pos in 0..2usize {
             let mut sim = base_sim(g.rng.next_u64());
             let skip = Plan::new(Fate::Code { code: 80, expected: None, exit_shell: pos == 0 });
@@ -726,6 +726,16 @@ pub fn lane_skip_interplay(seed: u64) -> Vec<Scenario> {
                     s2.cfg.wait = Some(Wait { timeout_ns: 300 * MS, path: None });
                     s2.cfg.timeout_ns = Some(5 * SEC);
                     docs.push(mk(&mut g, &mut sim, "k/wait.md", &[pass.clone(), s2, pass.clone()]));
+                }
+                "cram-skip-then-exit" => {
+                    // single-script mode: a command only RETURNS the skip code, a later one ends
+                    // the shell with another code - the document is skipped all the same
+                    let ret = Plan::new(Fate::Code { code: 80, expected: None, exit_shell: false });
+                    let leave = Plan::new(Fate::Code { code: 127, expected: None, exit_shell: true });
+                    let plans = if pos == 0 { vec![ret, pass.clone(), leave, pass.clone()] } else { vec![pass.clone(), ret, leave] };
+                    let tests = plans.iter().map(|p| g.test(p, &mut sim.programs)).collect();
+                    docs.push(doc("k/later-exit.t", Format::Cram, tests));
+                    docs.push(mk(&mut g, &mut sim, "k/other.md", &[pass.clone(), Plan::new(Fate::WrongOutput)]));
                 }
                 "fail-then-die" => {
                     // no skip code anywhere: nothing may be reported as skipped
@@ -841,6 +851,14 @@ pub fn lane_env(seed: u64) -> Vec<Scenario> {
                     if g.chance(50) {
                         for d in docs.iter_mut().filter(|d| d.format == Format::Md) {
                             d.loose_front_matter = true;
+                        }
+                    }
+                    // the first document is a symbolic link to a file that lives elsewhere
+                    if layout == "one" && g.chance(50) {
+                        if let Some(d) = docs.iter_mut().find(|d| d.main) {
+                            let name = d.path.rsplit('/').next().unwrap_or("doc").to_string();
+                            d.stored_at = Some(format!("elsewhere/store/target-of-{}", name));
+                            d.file_symlink = true;
                         }
                     }
                     // a second scrut instance creates (and sometimes removes) look-alike directories
@@ -1161,6 +1179,8 @@ pub fn lane_directory(seed: u64) -> Vec<Scenario> {
             docs.push(doc("suite/sub/deeper/nested.md", Format::Md, deep));
             let deep_t = vec![g.test(&Plan::new(Fate::Pass), &mut sim.programs)];
             docs.push(doc("suite/sub/nested.cram", Format::Cram, deep_t));
+            // ten levels down
+            docs.push(doc("suite/l1/l2/l3/l4/l5/l6/l7/l8/l9/l10/deepest.md", Format::Md, vec![g.test(&Plan::new(Fate::Pass), &mut sim.programs), g.test(&Plan::new(Fate::WrongOutput), &mut sim.programs)]));
             // a sub-directory that is a symbolic link to a directory elsewhere
             let mut linked = doc("suite/via-link/linked.md", Format::Md, vec![g.test(&Plan::new(Fate::Pass), &mut sim.programs), g.test(&Plan::new(Fate::WrongOutput), &mut sim.programs)]);
             linked.stored_at = Some("elsewhere/real dir/linked.md".into());
@@ -1846,6 +1866,50 @@ pub fn lane_closed_output(seed: u64) -> Vec<Scenario> {
 pub fn lane_flood(seed: u64) -> Vec<Scenario> {
     let mut out = vec![];
     let mut g = G::new(seed ^ 0xf100d);
+    // many megabytes at a leisurely pace, well inside the limit: the rounds in which scrut reads
+    // must not eat into the time that is left
+    for tier in [Tier::Lib, Tier::Cli] {
+        for limit in ["test", "document"] {
+            let mut sim = base_sim(g.rng.next_u64());
+            sim.swarm.spawn_latency_max_ns = 1;
+            let mut tests = vec![];
+            for k in 0..3 {
+                let mut t = g.test(&Plan::new(Fate::Pass), &mut sim.programs);
+                if k == 1 {
+                    let unit: Vec<u8> = format!("p{}\n", &t.nonce[..6]).repeat(128).into_bytes();
+                    let mut ops = vec![];
+                    for _ in 0..8 {
+                        ops.push(Op::OutRepeat { fd: 1, unit: Bytes(unit.clone()), times: 1200 });
+                        ops.push(Op::Sleep { ns: 400 * MS });
+                    }
+                    ops.push(Op::Status { code: 0 });
+                    sim.programs.insert(t.nonce.clone(), ops);
+                    t.expectations = vec![];
+                    t.expect_match = false;
+                    if limit == "test" {
+                        t.cfg.timeout_ns = Some(6 * SEC);
+                    }
+                }
+                tests.push(t);
+            }
+            let mut d = doc("paced.md", Format::Md, tests);
+            if limit == "document" {
+                d.total_timeout_ns = Some(8 * SEC);
+            }
+            let mut sc = Scenario {
+                lane: format!("flood/{:?}/paced/{}-limit", tier, limit),
+                tier,
+                script_mode: false,
+                docs: vec![d],
+                cli: Cli::default(),
+                sim,
+                pretty: false,
+                check: vec!["C14".into(), "C13".into()],
+            };
+            fill_expectations(&mut sc, &mut g);
+            out.push(sc);
+        }
+    }
     for tier in [Tier::Lib, Tier::Cli] {
         for limit in ["test", "document"] {
             for fd in [1u8, 2] {
